@@ -665,9 +665,17 @@ class UserExpr:
                 value = ERROR
             else:
                 try:
-                    value = self._namespace.auto_eval(block)
-                except UnimportableNameError:
+                    # The grammar accepts text that the compiler rejects
+                    # ("*1", "(yield)", "lambda x, x: 1"): that cannot be
+                    # evaluated either, so it is a string.
+                    block.compile()
+                except Exception:
                     value = ERROR
+                else:
+                    try:
+                        value = self._namespace.auto_eval(block)
+                    except UnimportableNameError:
+                        value = ERROR
             if value is ERROR:
                 # self.inferred_arg_mode = "raw_value"
                 self.value = self._original_arg
